@@ -211,4 +211,15 @@ class SymbolDB(MutableMapping[str, IReflection]):
 			self._order_keys_recursive(for_module_path, attr, orders)
 
 		if not for_module_path or for_module_path == symbol.types.module_path and symbol.types.fullyname not in orders:
-			orders.append(symbol.types.fullyname)
+			# 前方参照された型を先行して出力する場合、その型自身の行が参照するキー(後方で宣言された型変数等)を更に先行させる
+			types_row = self.__items.get(symbol.types.fullyname)
+			if types_row is not None and types_row is not symbol and symbol.types.fullyname not in orders:
+				orders.append(symbol.types.fullyname)
+				index = len(orders) - 1
+				befores: list[str] = []
+				for attr in types_row.attrs:
+					self._order_keys_recursive(for_module_path, attr, befores)
+
+				orders[index:index] = [key for key in befores if key not in orders]
+			else:
+				orders.append(symbol.types.fullyname)
